@@ -49,12 +49,17 @@ Steps(n, set) == "Steps" \in Ops /\ i <= N /\ Do("Steps", n, set)
 Stream(set) == "Stream" \in Ops /\ i <= N /\ Do("Stream", N + 1 - i, set)      \* until the stop time is reached
 \* a batch run of the same scenario on the same bptk object before the session is begun: changes nothing
 Batch == "Batch" \in Ops /\ hist = <<>> /\ Do("Batch", 0, 0)
+\* the session is ended and a new one is begun on the same scenario: everything starts again from the scenario's values,
+\* nothing of the first session's step settings is remembered
+Restart == /\ "Restart" \in Ops /\ hist # <<>> /\ i > 0 /\ ~(\E j \in DOMAIN hist : hist[j].op = "Restart")
+           /\ i' = 0 /\ k' = K0 /\ s4' = 0 /\ u4' = 0 /\ rlog' = <<>>
+           /\ hist' = Append(hist, [op |-> "Restart", n |-> 0, set |-> 0, rows |-> <<>>, log |-> <<>>])
 Init == i = 0 /\ k = K0 /\ s4 = 0 /\ u4 = 0 /\ rlog = <<>> /\ hist = <<>>
-Next == Batch \/ (\E set \in KVals : Step(set)) \/ (\E n \in {2, 3}, set \in KVals : Steps(n, set)) \/ (\E set \in KVals : Stream(set))
+Next == Batch \/ Restart \/ (\E set \in KVals : Step(set)) \/ (\E n \in {2, 3}, set \in KVals : Steps(n, set)) \/ (\E set \in KVals : Stream(set))
 Spec == Init /\ [][Next]_vars
 
 \* what was reported is never changed afterwards: settings act on later steps only
-AppendOnly == [][\E suffix \in {SubSeq(rlog', Len(rlog) + 1, Len(rlog'))} : rlog' = rlog \o suffix]_vars
+AppendOnly == [][rlog' = <<>> \/ \E suffix \in {SubSeq(rlog', Len(rlog) + 1, Len(rlog'))} : rlog' = rlog \o suffix]_vars
 \* one entry per grid point, in order, from the start time; never beyond the stop time
 OnGrid == \A j \in 1..Len(rlog) : rlog[j].t4 = Start4 + (j - 1) * Dt4
 WithinRun == Len(rlog) <= N + 1
@@ -62,7 +67,7 @@ WithinRun == Len(rlog) <= N + 1
 Euler == \A j \in 1..(Len(rlog) - 1) : rlog[j + 1].s4 = rlog[j].s4 + Dt4 * rlog[j].k
 EulerU == \A j \in 1..(Len(rlog) - 1) : rlog[j + 1].u4 = rlog[j].u4 + Dt4 * rlog[j].k
 InitialU == rlog # <<>> => rlog[1].u4 = 4 * rlog[1].k
-View == <<i, k, s4, u4, rlog, hist = <<>> >>
+View == <<i, k, s4, u4, rlog, hist = <<>>, \E j \in DOMAIN hist : hist[j].op = "Restart">>
 Bound == Len(hist) <= L
 Emit == (Len(hist) = L \/ i > N) => PrintT(ToJson(hist))
 =============================================================================
